@@ -7,7 +7,6 @@ import (
 
 	"github.com/evstack/ev-node/internal/zzsym"
 	"github.com/evstack/ev-node/types"
-	"google.golang.org/protobuf/proto"
 )
 
 func zzPersistedWM(e *zzEnv, key string) uint64 {
@@ -16,15 +15,6 @@ func zzPersistedWM(e *zzEnv, key string) uint64 {
 		return 0
 	}
 	return binary.LittleEndian.Uint64(v)
-}
-
-func zzHeaderBlob(h *types.SignedHeader) []byte {
-	p, err := h.ToProto()
-	if err != nil {
-		return nil
-	}
-	b, _ := proto.Marshal(p)
-	return b
 }
 
 // zzSetup: arbitrary watermark W >= I-1... (W = number of blocks already
